@@ -2748,6 +2748,12 @@ def _transition_to_absent(
 ) -> None:
     """Remove any type of entry."""
     if current_stat is None:
+        # Nothing to remove from the work tree, but a file deleted by hand
+        # still has its entry in the index.
+        try:
+            del index[path]
+        except KeyError:
+            pass
         return
 
     if stat.S_ISDIR(current_stat.st_mode):
